@@ -231,7 +231,40 @@ def _getlogger(fr, args, kwargs):
 
 @model("itertools.zip_longest")
 def _zip_longest(fr, args, kwargs):
-    raise Unsupported("itertools.zip_longest (modelled at contract level)")
+    """zip_longest over a concrete number of lists of (possibly symbolic) lengths: a list of tuples as long as the longest
+    argument, missing entries replaced by fillvalue"""
+    extra = set(kwargs) - {"fillvalue"}
+    if extra:
+        raise Unsupported(f"zip_longest keywords {sorted(extra)}")
+    fill = kwargs.get("fillvalue")
+    its = []
+    for a in args:
+        if isinstance(a, Arr):
+            if a.ndim != 1:
+                raise Unsupported("zip_longest over a matrix")
+            a = Seq(a.shape[0], lambda k, a=a: a.cell(((k,),)))
+        elif isinstance(a, (list, tuple)):
+            a = Seq(len(a), lambda k, a=list(a): sym.Lazy.choose(True, lambda: a[k], lambda: None) if sym.is_pyint(k) else _pick(a, k))
+        if not isinstance(a, Seq):
+            raise Unsupported(f"zip_longest over {type(a).__name__}")
+        its.append(a)
+    if not its:
+        return Seq(0, lambda k: ())
+    n = its[0].length
+    for a in its[1:]:
+        n = sym.ite(sym.lt(n, a.length), a.length, n)
+    n = sym.simp(n) if not sym.is_pyint(n) else n
+
+    def row(k):
+        return tuple(sym.Lazy.choose(sym.lt(k, a.length), lambda a=a: a.get(k), lambda: fill) for a in its)
+    return Seq(n, row)
+
+
+def _pick(lst, k):
+    r = lst[-1]
+    for i in range(len(lst) - 2, -1, -1):
+        r = sym.ite(sym.eq(k, i), lst[i], r)
+    return r
 
 
 # ----------------------------------------------------------------------------------
